@@ -19,6 +19,8 @@ TStep ==
   /\ IF Ev.e = "Reset" THEN verdict' = "none"
      ELSE verdict' = (IF Ev.fresh # Ev.prior THEN "SameOnPriorContent"
                       ELSE IF Ev.fresh # Ev.cout THEN "SameOnCout"
+                      ELSE IF Ev.fresh # Ev.movedc THEN "SameAfterMoveConstruction"
+                      ELSE IF Ev.fresh # Ev.moveda THEN "SameAfterMoveAssignment"
                       ELSE Which(Ev.decl, Ev.fresh))
   /\ l' = (IF verdict' \in {"none", "ok"} THEN l + 1 ELSE l)     \* a rejected event is not consumed
 TSpec == TInit /\ [][TStep]_<<l, verdict>>
